@@ -16,6 +16,8 @@ func Run(a vc.Args) {
 	switch a.Prop {
 	case "C39":
 		runReduce(a)
+	case "C48":
+		runSettings(a)
 	default:
 		rec.Fatal("gov: unknown prop %q", a.Prop)
 	}
